@@ -32,7 +32,7 @@ type c20Case struct {
 	Steps  []c20Step `json:"steps"`
 }
 
-var c20Faults = []string{"cfg-yaml-syntax", "cfg-optional", "cfg-casing", "cfg-package", "cfg-missing",
+var c20Faults = []string{"cfg-yaml-syntax", "cfg-optional", "cfg-casing", "cfg-package", "cfg-missing", "cfg-binds-own-package",
 	"schema-syntax", "schema-nomatch", "schema-invalid",
 	"op-syntax", "op-unknown-field", "op-none", "op-anonymous", "op-go-syntax",
 	"gen-unknown-scalar", "gen-keyword-var", "gen-conflicting-typenames"}
@@ -58,7 +58,14 @@ func c20Write(dir string, st c20Step, export bool) {
 	schema := c20Schema
 	ops := c20Ops(st.NOps)
 	os.Remove(filepath.Join(dir, "q.go"))
+	os.Remove(filepath.Join(dir, "go.mod"))
 	switch st.Fault {
+	case "cfg-binds-own-package":
+		// the directory is a Go module of its own and package_bindings names the very package the code is generated
+		// into (documented as circular, answered with a warning); the binding then fails to load from here
+		os.WriteFile(filepath.Join(dir, "go.mod"), []byte("module c20mod\n\ngo 1.21\n"), 0o644)
+		yaml += "package_bindings:\n- package: c20mod\n"
+		ops += "query Bad { user(id: \"1\") { nope } }\n" // and the run fails later, at validation
 	case "cfg-yaml-syntax":
 		yaml += "  bad: [unclosed\n"
 	case "cfg-optional":
@@ -219,6 +226,12 @@ func c20Run(c *Ctx, cs c20Case) {
 					pan = fmt.Sprintf("%v\n%s", r, debug.Stack())
 				}
 			}()
+			if st.Fault == "cfg-binds-own-package" {
+				// genqlient is run from inside the module it generates into: only then does it know its own package path
+				if wd, e := os.Getwd(); e == nil && os.Chdir(dir) == nil {
+					defer os.Chdir(wd)
+				}
+			}
 			err = generate.VerifReadConfigGenerateAndWrite(cfgArg)
 		}()
 		if pan != nil {
